@@ -26,6 +26,23 @@ def tags_of(files, op):
                 if isinstance(n, (ast.FunctionDef, ast.AsyncFunctionDef)) and n.lineno <= lines <= n.end_lineno and target in [a.arg for a in n.args.posonlyargs + n.args.args + n.args.kwonlyargs] and t is trees.get(op["path"]):
                     defs = [n]
                     calls = [c for t2 in trees.values() for c in ast.walk(t2) if isinstance(c, ast.Call) and ((isinstance(c.func, ast.Name) and c.func.id == n.name) or (isinstance(c.func, ast.Attribute) and c.func.attr == n.name))]
+    if not defs and target:
+        # the offset is on the keyword of a call: rope resolves it to that function's parameter
+        tree0 = trees.get(op["path"])
+        starts = [0]
+        for i_, ch in enumerate(src):
+            if ch == "\n":
+                starts.append(i_ + 1)
+        for c in ast.walk(tree0) if tree0 is not None else ():
+            if isinstance(c, ast.Call):
+                for k in c.keywords:
+                    if k.arg == target and starts[k.lineno - 1] + k.col_offset == s:
+                        fname = c.func.id if isinstance(c.func, ast.Name) else c.func.attr if isinstance(c.func, ast.Attribute) else None
+                        for t in trees.values():
+                            for n in ast.walk(t):
+                                if isinstance(n, (ast.FunctionDef, ast.AsyncFunctionDef)) and n.name == fname and not defs:
+                                    defs = [n]
+                                    calls = [c2 for t2 in trees.values() for c2 in ast.walk(t2) if isinstance(c2, ast.Call) and ((isinstance(c2.func, ast.Name) and c2.func.id == fname) or (isinstance(c2.func, ast.Attribute) and c2.func.attr == fname))]
     for d in defs:
         params = [a.arg for a in d.args.posonlyargs + d.args.args + d.args.kwonlyargs]
         stores = {n.id for st in d.body for n in ast.walk(st) if isinstance(n, ast.Name) and isinstance(n.ctx, ast.Store)}
@@ -36,6 +53,8 @@ def tags_of(files, op):
         locals_ = stores - set(params)
         for c in calls:
             argnames = {n.id for a in list(c.args) + [k.value for k in c.keywords] for n in ast.walk(a) if isinstance(n, ast.Name)}
+            if isinstance(c.func, ast.Attribute):  # the receiver is the implicit first argument
+                argnames |= {n.id for n in ast.walk(c.func.value) if isinstance(n, ast.Name)}
             if argnames & set(params):
                 tags.add("arg-mentions-param")
             if argnames & locals_:
@@ -57,8 +76,27 @@ def tags_of(files, op):
                 other_top = {n.id for st in t.body for n in ast.walk(st) if isinstance(n, ast.Name) and isinstance(n.ctx, ast.Store)} | {st.name for st in t.body if isinstance(st, (ast.FunctionDef, ast.ClassDef))}
                 if body_reads & def_top & other_top:
                     tags.add("body-global-clashes-with-a-name-of-the-using-module")
-        if len(calls) > 1 and any(c.keywords or len(c.args) < len(params) for c in calls):
-            tags.add("several-callsites-keyword-or-default")
+        # two call sites in one statement: the statement is emitted once per call site
+        for t in trees.values():
+            for st in ast.walk(t):
+                if isinstance(st, ast.stmt) and not isinstance(st, (ast.FunctionDef, ast.AsyncFunctionDef, ast.ClassDef, ast.If, ast.For, ast.While, ast.With, ast.Try)):
+                    inside = [c for c in calls if any(n is c for n in ast.walk(st))]
+                    if len(inside) > 1:
+                        tags.add("several-calls-in-one-statement")
+        # values computed for one call site leak into a LATER one: an earlier call binds a defaulted
+        # parameter explicitly, a later call leaves it to the default
+        is_method = bool(params) and params[0] in ("self", "cls")
+        real = params[1:] if is_method else params
+
+        def bound(c):
+            got = set(real[: len(c.args)]) | {k.arg for k in c.keywords if k.arg}
+            return got
+
+        ordered = sorted(calls, key=lambda c: (c.lineno, c.col_offset))
+        for i, ci in enumerate(ordered):
+            for cj in ordered[i + 1:]:
+                if (bound(ci) - bound(cj)) & set(real):
+                    tags.add("several-callsites-keyword-or-default")
     if not defs and target:
         # variable inlining: is an operand of the value re-assigned in the same function / module?
         for t in trees.values():
@@ -107,11 +145,27 @@ def src_has_bare_tuple(files, assign):
     return False
 
 
+def _manifestation(sig):
+    """how the failure shows: the exception type of the refactored program, 'output' for a silently
+    different result, or the verdict (does_not_parse, import_fails, ...).  A root-cause tag explains a
+    failure only together with a manifestation it is known to have."""
+    import re as _re
+
+    m = _re.search(r":after=([A-Za-z_:]+):behaviour_changed", sig)
+    if m:
+        return "output" if m.group(1) == "None" else m.group(1)
+    for v in ("does_not_parse", "import_fails", "generated_code_does_not_parse", "internal"):
+        if ":" + v in sig:
+            return v
+    return "other"
+
+
 def replay(f):
     r = replay_with(f, check_imports=True)
     if r.get("reproduced"):
         try:
-            r["signature"] = r["signature"].replace("|", "/") + "".join("|" + t for t in tags_of(f["witness"]["files"], f["witness"]["op"]))
+            how = _manifestation(r["signature"])
+            r["signature"] = r["signature"].replace("|", "/") + "".join("|%s@%s" % (t, how) for t in tags_of(f["witness"]["files"], f["witness"]["op"]))
         except Exception as e:  # tagging must never hide a violation
             r["signature"] = r["signature"].replace("|", "/") + "|untagged"
     return r
